@@ -136,6 +136,7 @@ func runC07(c *Ctx) {
 	p := c.P
 	decodeFromFillsPrefix(c, "R7")
 	extensionKeySplit(c, "R2")
+	decodeOnlyThroughDecodeFrom(c, "R3")
 	// ---- R1 ---------------------------------------------------------------------------------
 	pats, pos, ok := globalInitStrings(p, "lfs", "oidRE")
 	if !ok || len(pats) != 1 {
